@@ -60,6 +60,8 @@ def tx_no_mutation(ctx, rule):
 
 
 def check(ctx):
+    from .c24 import queues_unbounded
+    queues_unbounded(ctx, "T4-unbounded", ("ioflo.aio.proto.stacking",))
     from .c35 import txqueue_rearranged_only_by_service
     txqueue_rearranged_only_by_service(ctx, ("Stack", "RemoteStack", "TcpServerStack", "ClientStreamStack", "TcpClientStack"), "T4-txqueue")
     ctx.rule("T4-txcopy", "tcp tx/serviceTxes/send never mutate handed-over bytes in place; a partial send re-queues a copy of the tail")
